@@ -3,10 +3,15 @@
 (* reference bytes.Buffer driven with the same operations) against           *)
 (* ByteBuffer.  Events:                                                      *)
 (*   reset {subject, ctor, init, size, cap, obs}   a new buffer              *)
-(*   call  {a, r, obs}                             one method call: action,  *)
-(*          reply [n, v, err, b], and obs = [len |-> Len(), b |-> Bytes()]   *)
+(*   call  {a, r, obs, inmut}                      one method call: action,  *)
+(*          reply [n, v, err, b], obs = [len |-> Len(), b |-> Bytes(),       *)
+(*          cap |-> Cap()] afterwards, inmut = the slice the caller passed   *)
+(*          in (Write, ReWrite) still holds what the caller put there        *)
 (* A call is accepted iff some outcome the contract allows (Outs) has that   *)
-(* reply and that unread content.                                            *)
+(* reply and that unread content.  Everything else the harness may record    *)
+(* (`hang`: a call did not return; `crash`: the process died inside the      *)
+(* buffer; a constructor or observer that panicked shows as len = -1) is     *)
+(* not an event of the contract and is rejected.                             *)
 EXTENDS ByteBuffer, Json, IOUtils
 
 TraceLog == ndJsonDeserialize(IOEnv.VERIF_TRACE)
@@ -21,13 +26,15 @@ TReset(e) ==
   /\ data' = (IF e.ctor \in {"new", "newstr"} THEN e.init ELSE <<>>)
   /\ lr' = 0 /\ prev' = <<>> /\ ag' = FALSE /\ dirty' = FALSE
   /\ last' = [op |-> "init"] /\ rep' = Ok
-  /\ e.obs.len = Len(data') /\ e.obs.b = data'
+  /\ e.obs.len = Len(data') /\ e.obs.b = data' /\ e.obs.cap >= e.obs.len
   /\ e.ctor = "sized" => e.cap >= e.size          \* NewSizedBuffer: empty, at least the requested capacity
 
 TCall(e) ==
   \E o \in Outs(e.a) :
      /\ o.rep = e.r
      /\ e.obs.len = Len(o.d) /\ e.obs.b = o.d
+     /\ e.obs.cap >= e.obs.len              \* Cap() is not compared, but it cannot be below the content
+     /\ e.inmut = TRUE                      \* io.Writer: "Write must not modify the slice data, even temporarily"
      /\ Install(o) /\ last' = e.a
 
 Consume ==
